@@ -208,9 +208,50 @@ const (
 	BehErr
 	BehPanic
 	BehErrVals // returns non-nil values together with a non-nil error
+	// BehPanicDigErr: panics with a value that is an error and wraps one of
+	// dig's own errors (a cycle rejection obtained from a helper container) —
+	// what a must-style helper re-raising a dig error with panic(err) does.
+	// Logged as a panic (Outcome BehPanic).
+	BehPanicDigErr
 )
 
-func (b Beh) String() string { return [...]string{"ok", "err", "panic", "errvals"}[b] }
+func (b Beh) String() string { return [...]string{"ok", "err", "panic", "errvals", "panicdigerr"}[b] }
+
+// PanicErrVal is a panic value that is also an error wrapping a dig error.
+type PanicErrVal struct {
+	*PanicVal
+	Wrapped error
+}
+
+func (p *PanicErrVal) Error() string { return "panic value wrapping: " + p.Wrapped.Error() }
+func (p *PanicErrVal) Unwrap() error { return p.Wrapped }
+
+// AsPanicVal extracts the identity-carrying PanicVal from a recovered value.
+func AsPanicVal(p interface{}) (*PanicVal, bool) {
+	switch x := p.(type) {
+	case *PanicVal:
+		return x, true
+	case *PanicErrVal:
+		return x.PanicVal, true
+	}
+	return nil, false
+}
+
+var digCycleErr error
+
+// sampleDigError returns a genuine dig cycle rejection (IsCycleDetected is
+// true for it, its root cause is a dig.Error).
+func sampleDigError() error {
+	if digCycleErr == nil {
+		c := dig.New()
+		_ = c.Provide(func(int) string { return "" })
+		digCycleErr = c.Provide(func(string) int { return 0 })
+		if digCycleErr == nil {
+			panic("universe: helper container accepted a cycle")
+		}
+	}
+	return digCycleErr
+}
 
 // UserErr is the error a user function returns; identity matters.
 type UserErr struct {
@@ -549,6 +590,11 @@ func (rt *Runtime) Body(f *Func, inst string, ft reflect.Type, args []reflect.Va
 		pv := &PanicVal{Fn: inst, Exec: exec}
 		rt.Log = append(rt.Log, Event{Kind: EvExit, Fn: inst, Exec: exec, Outcome: BehPanic, Panic: pv, At: rt.Clock.Elapsed()})
 		panic(pv)
+	}
+	if beh == BehPanicDigErr {
+		pv := &PanicVal{Fn: inst, Exec: exec}
+		rt.Log = append(rt.Log, Event{Kind: EvExit, Fn: inst, Exec: exec, Outcome: BehPanic, Panic: pv, At: rt.Clock.Elapsed()})
+		panic(&PanicErrVal{PanicVal: pv, Wrapped: sampleDigError()})
 	}
 	if (beh == BehErr || beh == BehErrVals) && !f.Err {
 		// a function without an error result cannot fail by error: it panics instead
